@@ -9,11 +9,14 @@
      - so a run that can go no further has delivered exactly the mapped items, in order.
    And on single operations: send on a closed channel and a second close are failures, a receive on a
    closed and drained channel yields nothing with ok = false, receive is FIFO.
+   Fan-in (Chan/FanIn.v): k producers sending into one channel, one consumer - under every schedule each
+   producer's values arrive exactly once and in that producer's order, no deadlock, every schedule ends.
    The Go scheduler and the interpreter's goroutines are not in the model: ./check C16 runs generated
    pipeline programs on the real interpreter many times under varying GOMAXPROCS and compares what
    the consumer collected with the model's answer. *)
-From Coq Require Import List Arith Lia Bool.
+From Coq Require Import List Arith Lia Bool ZArith.
 From Anko Require Import Chan.Pipeline Chan.PipelineExec.
+From Anko Require Chan.FanIn Chan.FanInProofs.
 Import ListNotations.
 
 Theorem nothing_lost_duplicated_or_reordered : forall (V : Type) (y y' : @sys V),
@@ -47,7 +50,42 @@ Example three_stage_pipeline :
   /\ fin (run 200 (pipeline [1; 2; 3] 0 [(fun x => x + 1, 0); (fun x => x * 2, 2)])) = true.
 Proof. split; reflexivity. Qed.
 
+(* several producers sending into one channel: under every schedule, what the consumer ends up with,
+   restricted to producer i, is exactly producer i's list - every value of every producer once, in its
+   producer's order, and nothing from anyone else; the executable verdict of the check says the same *)
+Theorem fan_in_delivers_every_message_once_in_sender_order : forall cap items s,
+  FanIn.steps cap (FanIn.init items) s -> FanIn.final s ->
+  Forall (fun m => fst m < length items) (FanIn.got s)
+  /\ (forall i, i < length items -> FanIn.proj i (FanIn.got s) = nth i items [])
+  /\ FanIn.fanin_ok items (FanIn.got s) = true.
+Proof.
+  intros cap items s Hs Hf.
+  destruct (FanInProofs.final_inv_delivered items s (FanInProofs.inv_steps cap items _ _ (FanInProofs.inv_init items) Hs) Hf) as [H1 H2].
+  repeat split; try assumption. apply FanInProofs.delivered_ok; assumption.
+Qed.
+
+Theorem fan_in_verdict_means_delivery : forall items l, FanIn.fanin_ok items l = true ->
+  Forall (fun m => fst m < length items) l /\ forall i, i < length items -> FanIn.proj i l = nth i items [].
+Proof. exact FanInProofs.ok_delivered. Qed.
+
+Theorem fan_in_never_deadlocks : forall cap s, 0 < cap -> FanIn.final s \/ exists s', FanIn.step cap s s'.
+Proof. exact FanInProofs.progress. Qed.
+
+Theorem fan_in_every_schedule_ends : forall cap, well_founded (fun s' s => FanIn.step cap s s').
+Proof. exact FanInProofs.schedules_end. Qed.
+
+(* a run exists and the verdict is not vacuous: two producers through a one-slot channel *)
+Example fan_in_somewhere :
+  let items := [[1; 2]; [7]]%Z in
+  FanIn.fanin_ok items [(0, 1%Z); (1, 7%Z); (0, 2%Z)] = true /\ FanIn.fanin_ok items [(0, 2%Z); (1, 7%Z); (0, 1%Z)] = false
+  /\ FanIn.fanin_ok items [(0, 1%Z); (0, 2%Z)] = false /\ FanIn.fanin_ok items [(0, 1%Z); (1, 7%Z); (0, 2%Z); (1, 7%Z)] = false.
+Proof. vm_compute. repeat split. Qed.
+
 Print Assumptions nothing_lost_duplicated_or_reordered.
 Print Assumptions no_deadlock.
 Print Assumptions every_schedule_terminates.
 Print Assumptions pipelines_deliver_every_item_once_in_order.
+Print Assumptions fan_in_delivers_every_message_once_in_sender_order.
+Print Assumptions fan_in_verdict_means_delivery.
+Print Assumptions fan_in_never_deadlocks.
+Print Assumptions fan_in_every_schedule_ends.
